@@ -335,5 +335,9 @@ def run(ctx):
     from .c04 import bases
     ctx.pmap(shard_bic, [(b, alphabet) for b in bases(ctx.rng("bic"), ctx.pick(2, 20))])
     ctx.hyp_explore(text_strategy(), hyp_body, ctx.pick(6000, 200000), name="C05-text")
+    if not ctx.quick:
+        from ..engines import fuzz
+        fuzz.run_campaign(ctx.rec, "iban-c05", 100000, ctx.seed, ctx.prop)   # secondary engine: coverage-guided, oracle inside
+        fuzz.run_campaign(ctx.rec, "bic-c05", 100000, ctx.seed, ctx.prop)
     ctx.require_classes("valid", "replace-defects-1", "replace-defects-2", "inject-1-defects", "inject-4-defects",
                         "nationally-invalid", "bic-base", "bic-multi-defects-3", "hyp-iban-near", "hyp-bic-near")
